@@ -43,6 +43,11 @@ fn shrink(t: &[String]) -> Vec<Vec<String>> {
 fn gen(rng: &mut Rng, tier: Tier) -> Vec<Case> {
     let mut out = vec![];
     let (nb, nr) = match tier { Tier::Quick => (600, 150), Tier::Thorough => (10000, 2500) };
+    if tier == Tier::Thorough {
+        // exhaustive small scope: all pairs of sequences of <= 2 non-empty intervals over 0..=3, histories with merges and set_cov
+        let hs = exhaustive_hists(2, 3, false, true);
+        for a in &hs { for b in &hs { out.push(Case::new("exhaustive", enc(&C { a: a.clone(), b: b.clone() }))); } }
+    }
     for i in 0..(nb + nr) {
         let small = i < nb;
         let (na, nbv) = if small { (rng.range(0, 5) as usize, rng.range(0, 5) as usize) } else { (rng.range(3, 60) as usize, rng.range(3, 60) as usize) };
@@ -62,7 +67,7 @@ fn gen(rng: &mut Rng, tier: Tier) -> Vec<Case> {
 pub fn prop() -> PropDef {
     PropDef {
         id: "C19",
-        rule: "corpus, then pairs of histories new/insert*/merge_overlaps/set_cov (set_cov before later inserts and merges included) over non-empty intervals: small (0-5 intervals each, coordinates 0..20, incl. empty, identical, disjoint, interleaved, nested) and large (3-60 each, offsets up to 2^63); all four merged/unmerged combinations forced in rotation. Non-trivial: both sides non-empty and some side has two touching/overlapping intervals. Distinct = distinct input token sequence.",
+        rule: "corpus, then pairs of histories new/insert*/merge_overlaps/set_cov (set_cov before later inserts and merges included) over non-empty intervals: small (0-5 intervals each, coordinates 0..20, incl. empty, identical, disjoint, interleaved, nested) and large (3-60 each, offsets up to 2^63); all four merged/unmerged combinations forced in rotation. Non-trivial: both sides non-empty and some side has two touching/overlapping intervals. Thorough adds the exhaustive small scope: all pairs of sequences of <= 2 non-empty intervals over 0..=3 in histories with merges and set_cov. Distinct = distinct input token sequence.",
         observable: "Lapper::cov of both sets, union_and_intersect both ways, union, intersect",
         gen, exec, shrink, child: None,
     }
